@@ -107,6 +107,7 @@ def value_oracle(name):
 
 
 def install():
+    probe.enable_recall("C11.recall", every=5)
     base = "esutil.cosmology.cosmology:Cosmo."
     for m in TWO + ONE + ("V", "Ezinv_integral"):
         probe.instrument(base + m, [value_oracle(m)])
@@ -354,11 +355,21 @@ def run_case(case):
                 COL.ok("C11.vector", (m, "array", form, min(nn, 3)))
     # mismatched lengths are rejected
     for m in TWO:
-        res, e = probe.attempt(getattr(c, m), np.array([0.1, 0.2, 0.3]), np.array([0.5, 0.6]))
+        # every pair of unequal lengths, in particular those where one array has a single element (which broadcasting
+        # rules would let through) and both orders; arrays, lists and mixed
+        la, lb = [(3, 2), (1, 3), (3, 1), (1, 2), (2, 1), (int(rng.integers(1, 9)), int(rng.integers(9, 30)))][int(rng.integers(0, 6))]
+        za, zb = np.linspace(0.1, 0.3, la), np.linspace(0.5, 0.9, lb)
+        cont = int(rng.integers(0, 3))
+        if cont == 1:
+            za, zb = za.tolist(), zb.tolist()
+        elif cont == 2:
+            zb = zb.tolist()
+        res, e = probe.attempt(getattr(c, m), za, zb)
         if e is None:
-            COL.violation("C11.vector", "%s accepted arrays of lengths 3 and 2" % m, dict(wit0, got=repr(res)[:100]))
+            COL.violation("C11.vector", "%s accepted arrays of lengths %d and %d" % (m, la, lb), dict(wit0, got=repr(res)[:100]),
+                          key="mismatch-accepted")
         else:
-            COL.ok("C11.vector", (m, "mismatch-rejected"))
+            COL.ok("C11.vector", (m, "mismatch-rejected", la == 1, lb == 1, cont))
     # ---- copies report the same parameters and give bit-identical distances
     zs = np.array([0.0, 0.3, 1.0, 2.5, 5.0])
     base = {m: bits(getattr(c, m)(0.05, zs)) for m in TWO}
